@@ -857,8 +857,8 @@ fn run(args: &Args) -> i32 {
     rep.assume("identifier normalisation: unquoted -> lower case, quoted -> verbatim; 1-part names resolve in datafusion.public, 2-part names in catalog datafusion; a catalog made by CREATE DATABASE starts without schemas");
     rep.assume("left open (not asserted): rows / success of a view (or of a copy of it) after the object it was created over has been dropped or replaced (the docs do not say whether a view binds late); whether base tables are listed in information_schema.views; the base of ordinal_position; CREATE TABLE IF NOT EXISTS over an existing name whose source query is invalid");
     let selftest = args.opt_u64("selftest", 0);
-    let n_sys = args.bound("systematic", 600, 2000);
-    let n_rand = args.bound("histories", 1500, 100_000);
+    let n_sys = args.bound("systematic", 500, 2000);
+    let n_rand = args.bound("histories", 1000, 100_000);
     vcommon::par::run(args.workers, 0..n_sys, |i| {
         let mut rng = Rng::derive(0xC49, &[0, i]);
         history(&rep, &mut rng, selftest);
